@@ -133,6 +133,7 @@ func NewSchema(config SchemaConfig) (Schema, error) {
 	for _, impls := range schema.implementations {
 		sort.Slice(impls, func(i, j int) bool { return impls[i].Name() < impls[j].Name() })
 	}
+	schema.buildPossibleTypeMap()
 
 	// Enforce correct interface implementations
 	for _, ttype := range schema.typeMap {
@@ -163,7 +164,6 @@ func (gq *Schema) AddImplementation() error {
 	// every implementation is listed once, and what was derived from the
 	// old table is dropped.
 	gq.implementations = map[string][]*Object{}
-	gq.possibleTypeMap = nil
 	for _, ttype := range gq.typeMap {
 		if ttype, ok := ttype.(*Object); ok {
 			for _, iface := range ttype.Interfaces() {
@@ -180,6 +180,7 @@ func (gq *Schema) AddImplementation() error {
 	for _, impls := range gq.implementations {
 		sort.Slice(impls, func(i, j int) bool { return impls[i].Name() < impls[j].Name() })
 	}
+	gq.buildPossibleTypeMap()
 
 	// Enforce correct interface implementations
 	for _, ttype := range gq.typeMap {
@@ -255,24 +256,43 @@ func (gq *Schema) PossibleTypes(abstractType Abstract) []*Object {
 	}
 	return []*Object{}
 }
-func (gq *Schema) IsPossibleType(abstractType Abstract, possibleType *Object) bool {
-	possibleTypeMap := gq.possibleTypeMap
-	if possibleTypeMap == nil {
-		possibleTypeMap = map[string]map[string]bool{}
-	}
-
-	if typeMap, ok := possibleTypeMap[abstractType.Name()]; !ok {
-		typeMap = map[string]bool{}
+// buildPossibleTypeMap derives the possible-type table of every interface
+// and union of the schema. It is complete when the schema is handed out:
+// the table is shared by every copy of the Schema value, so it must not be
+// filled while requests are executing.
+func (gq *Schema) buildPossibleTypeMap() {
+	possibleTypeMap := map[string]map[string]bool{}
+	for _, ttype := range gq.typeMap {
+		var abstractType Abstract
+		switch ttype := ttype.(type) {
+		case *Interface:
+			abstractType = ttype
+		case *Union:
+			abstractType = ttype
+		default:
+			continue
+		}
+		typeMap := map[string]bool{}
 		for _, possibleType := range gq.PossibleTypes(abstractType) {
-			typeMap[possibleType.Name()] = true
+			if possibleType != nil {
+				typeMap[possibleType.Name()] = true
+			}
 		}
 		possibleTypeMap[abstractType.Name()] = typeMap
 	}
-
 	gq.possibleTypeMap = possibleTypeMap
-	if typeMap, ok := possibleTypeMap[abstractType.Name()]; ok {
+}
+
+func (gq *Schema) IsPossibleType(abstractType Abstract, possibleType *Object) bool {
+	if typeMap, ok := gq.possibleTypeMap[abstractType.Name()]; ok {
 		isPossible, _ := typeMap[possibleType.Name()]
 		return isPossible
+	}
+	// Not a type of this schema: decide without touching the shared table.
+	for _, candidate := range gq.PossibleTypes(abstractType) {
+		if candidate != nil && candidate.Name() == possibleType.Name() {
+			return true
+		}
 	}
 	return false
 }
